@@ -63,6 +63,11 @@ ASSUMPTIONS = [
     "QSW/TNW-oriented orbit frames: only v' = R (v - v_ref) is asserted (DESIGN decision); axes definitions are C17's",
     "Earth.equatorial_radius, Earth.flattening, Earth.mu of beyond.constants are data",
     "element forms other than cartesian are C01's subject and are not driven here",
+    "the IAU-2006/2000A X, Y series value is read from the library through a hook on iau2010._xysxy2 (data); only the wiring "
+    "of the IERS dX, dY (column, unit, day) is judged against it; the series itself and the CIO locator s are covered only "
+    "by the 0.1\" cross-model clause",
+    "days whose LOD / dX / dY columns are blank in the IERS files (the prediction part, MJD >= 57429 / 57498) are skipped by "
+    "the rate-vector / pole-offset monitors (the library carries the last value forward; the statement says nothing there)",
 ]
 
 BUILTIN = ["EME2000", "MOD", "TOD", "TEME", "PEF", "ITRF", "TIRF", "CIRF", "GCRF", "G50"]
@@ -80,7 +85,8 @@ S_V = 1.0e7
 
 # ---- tolerances (each: derived conditioning x margin; noise floors measured on the unchanged tree) -------
 # algebraic, position [m]: 1e-5 + 1e-12 * (largest position / centre offset met on the chain).  Measured worst
-# 6e-9 m among Earth-centred frames, 3e-5 m through the Sun-centred frame (|offset| = 1.5e11 m, ulp 3e-5 m).
+# (thorough tier, 2.1e6 triples) 4e-7 m among Earth-centred frames at lunar distance, 1.5e-4 m through the
+# Sun-centred frame (|offset| = 1.5e11 m, ulp 3e-5 m) against 0.15 m.
 ALG_POS_ABS, ALG_REL = 1e-5, 1e-12
 # algebraic, velocity [m/s]: 1e-8 + 1e-12 * largest speed met (incl. omega x offset = 1.1e7 m/s for the Sun
 # seen from an Earth-fixed frame)
@@ -115,7 +121,7 @@ RATE_TOL = 1e-15  # rad/s; measured 3e-20; LOD changes the rate by ~1.7e-12
 # dX, dY are 0.05..0.5 mas = 2e-10..2e-9 rad and move by ~5e-11 rad per day.
 POLE_OFFSET_TOL = 1e-13
 G50_TOL = 1e-5
-CROSS_TOL = 0.1 * ARCSEC  # the statement's own number; measured worst 0.044" (1973..2017)
+CROSS_TOL = 0.1 * ARCSEC  # the statement's own number; measured worst 0.0445" over every third day of 1973..2017
 # body-centred frames: truncation of the documented central difference (h^2/6 |r'''|): Moon h = 1 d:
 # 1.24e9 s^2 x (7.2e-9 main + 6.3e-9 evection + ... ) <= 40 m/s; Sun h = 5 d: 3.1e10 x 1.2e-9 = 37 m/s (+ e-harmonics)
 BODY_VEL_ALLOW = {"Moon": 60.0, "Sun": 80.0}
